@@ -11,7 +11,8 @@ class NotEqual(Lookup):
     def as_sql(self, compiler, connection):  # type: ignore
         lhs, lhs_params = self.process_lhs(compiler, connection)
         rhs, rhs_params = self.process_rhs(compiler, connection)
-        params = lhs_params + rhs_params
+        # Either side may hand back a list or a tuple, depending on its kind:
+        params = (*lhs_params, *rhs_params)
         return "%s <> %s" % (lhs, rhs), params
 
 
